@@ -1,8 +1,8 @@
 import EG.Generated.NeighborsTable
 /-
   C04 (part 1: the tie to the code) — `neighbors()` of the real code, evaluated on the
-  complete per-link decision domain (5 two-ended classes × 4 positions × 4 direction values
-  × 4 unknown-handling values × 3 filter outcomes = 960 rows, regenerated from /repo on
+  complete per-link decision domain (6 two-ended classes (one deriving from BOTH edge classes) × 4 positions × 4 direction values
+  × 4 unknown-handling values × 3 filter outcomes = 1152 rows, regenerated from /repo on
   every run), agrees row by row with the mirror model, and — on the rows the statement
   speaks about — with the rule as the statement reads.  Checked by kernel evaluation over
   the whole table; no axioms.
@@ -11,7 +11,7 @@ namespace EG
 namespace Tab
 
 /-- no row can silently go missing -/
-theorem C04_table_complete : implNb.length = 960 := by decide +kernel
+theorem C04_table_complete : implNb.length = 1152 := by decide +kernel
 
 /-- real code = mirror model on every row -/
 theorem C04_impl_eq_model : implNb.all nbRowOk = true := by decide +kernel
